@@ -529,9 +529,9 @@ def _big_panel(case):
     if case["layout"] == "alternating":
         pops = ["P1" if i % 2 == 0 else "P2" for i in range(n)]
     elif case["layout"] == "few-used-samples-last":
-        # a large panel of which the model uses a handful of samples (ten, in the last columns); the rest belong to a population
+        # a large panel of which the model uses a handful of samples (24, in the last columns); the rest belong to a population
         # the model does not name
-        pops = ["P0" if i < n - 10 else ("P1" if i % 2 == 0 else "P2") for i in range(n)]
+        pops = ["P0" if i < n - 24 else ("P1" if i % 2 == 0 else "P2") for i in range(n)]
     else:
         first = "P1" if case["layout"] == "second-pop-last" else "P2"
         pops = [first if i < n // 2 else ("P2" if first == "P1" else "P1") for i in range(n)]
@@ -566,6 +566,8 @@ def impl_big(case):
 def oracle_big(case, obs):
     """SAMPLE names the reference sample; the allele must be one that sample carries there, the sample must belong to
     the population the breakpoints give, and within a block the sample does not change"""
+    if "error" in obs and case.get("no_repl") and obs.get("deliberate"):
+        return None  # without replacement a panel may run out (which stretches are taken depends on the draws): a refusal is in order
     if "error" in obs:
         return f"output_vcf raised {obs}"
     refs, pops, variants, data = _big_panel(case)
